@@ -113,7 +113,9 @@ func (f *Field) getArg(name string) (av *ArgValue) {
 	return
 }
 
-func (f *Field) sortArgs() (errors []error) {
+// checkArgs verifies that every argument provided is one the field definition
+// in the container type declares.
+func (f *Field) checkArgs() (errors []error) {
 	if 0 < len(f.Args) {
 		var fd *FieldDef
 		switch ct := f.ConType.(type) {
@@ -127,13 +129,6 @@ func (f *Field) sortArgs() (errors []error) {
 				if av != nil && fd.getArg(av.Arg) == nil {
 					errors = append(errors, valError(av.line, av.col, "%s is not an argument to %s", av.Arg, f.Name))
 				}
-			}
-			if _, ok := f.ConType.(*Object); ok && len(errors) == 0 {
-				args := make([]*ArgValue, 0, len(f.Args))
-				for _, a := range fd.args.list {
-					args = append(args, f.getArg(a.N))
-				}
-				f.Args = args
 			}
 		}
 	}
